@@ -12,6 +12,10 @@ def main():
     names = sys.argv[1:] or sorted(os.path.basename(os.path.dirname(p)) for p in glob.glob("/verif/seeded/*/meta.json"))
     head = sh("git -C /repo rev-parse --short HEAD")[1].strip()
     for name in names:
+        only = None
+        if ":" in name:                      # name:C01,C02 -> run exactly these checks
+            name, only = name.split(":")
+            only = only.split(",")
         d = os.path.join("/verif/seeded", name)
         meta = json.load(open(os.path.join(d, "meta.json")))
         rc, o = sh("git -C /repo status --short"); assert o.strip() == "", "repo not clean"
@@ -24,7 +28,7 @@ def main():
         sh("git -C /repo apply %s/patch.diff" % d)
         res = {}
         try:
-            for c in (meta.get("caught_by") or [meta.get("property")]):
+            for c in (only or meta.get("caught_by") or [meta.get("property")]):
                 t0 = time.time()
                 rc, o = sh("./check %s --quick" % c, cwd="/verif")
                 res[c] = {"exit": rc, "wall_s": round(time.time() - t0, 1),
